@@ -620,9 +620,7 @@ func (d *decoderState) ReadToken() (Token, error) {
 			return Token{}, wrapSyntacticError(d, err, pos, +1)
 		}
 		d.Names.push()
-		if !d.Flags.Get(jsonflags.AllowDuplicateNames) {
-			d.Namespaces.push()
-		}
+		d.Namespaces.push() // always, since AllowDuplicateNames may change while the object is open
 		d.Flags.Clear(jsonflags.TagFlags) // tags only apply to current depth
 		pos += 1
 		d.prevStart, d.prevEnd = pos, pos
@@ -633,9 +631,7 @@ func (d *decoderState) ReadToken() (Token, error) {
 			return Token{}, wrapSyntacticError(d, err, pos, +1)
 		}
 		d.Names.pop()
-		if !d.Flags.Get(jsonflags.AllowDuplicateNames) {
-			d.Namespaces.pop()
-		}
+		d.Namespaces.pop()
 		pos += 1
 		d.prevStart, d.prevEnd = pos, pos
 		return EndObject, nil
